@@ -857,13 +857,34 @@ def rule_coverage_subsumption(db: ProgramDB) -> List[Instance]:
     ap = m.positional_params[1]
     alls = [c for c in own_nodes(m.node) if isinstance(c, ast.Call) and dotted(c.func) == "all" and c.args
             and isinstance(c.args[0], (ast.GeneratorExp, ast.ListComp))]
-    if len(alls) != 1:
-        raise AnalysisError(f"SeenSet.check: expected one all(… for k, v in constraint.items()), found {len(alls)}")
-    comp = alls[0].args[0]
-    g = comp.generators[0]
-    if not (isinstance(g.target, ast.Tuple) and len(g.target.elts) == 2 and all(isinstance(e, ast.Name) for e in g.target.elts)) or g.ifs:
-        raise AnalysisError("SeenSet.check: the per-key test is not over (key, value) pairs of a stored binding")
-    kn, vn = g.target.elts[0].id, g.target.elts[1].id
+    justified_tests: List[ast.AST] = []       # the tests / loops whose success establishes containment
+    if len(alls) == 1:
+        comp = alls[0].args[0]
+        g = comp.generators[0]
+        if not (isinstance(g.target, ast.Tuple) and len(g.target.elts) == 2 and all(isinstance(e, ast.Name) for e in g.target.elts)) or g.ifs:
+            raise AnalysisError("SeenSet.check: the per-key test is not over (key, value) pairs of a stored binding")
+        kn, vn = g.target.elts[0].id, g.target.elts[1].id
+        per_key = comp.elt
+        justified_tests.append(alls[0])
+    else:
+        # the loop form: for k, v in constraint.items(): if <fails>: break   else: <covered>
+        loops = [f for f in own_nodes(m.node) if isinstance(f, ast.For) and isinstance(f.iter, ast.Call) and call_attr(f.iter) == "items" and f.orelse
+                 and isinstance(f.target, ast.Tuple) and len(f.target.elts) == 2 and all(isinstance(e, ast.Name) for e in f.target.elts)
+                 and len(f.body) == 1 and isinstance(f.body[0], ast.If) and len(f.body[0].body) == 1 and isinstance(f.body[0].body[0], ast.Break)
+                 and not f.body[0].orelse]
+        if len(alls) > 1 or len(loops) != 1:
+            raise AnalysisError(f"SeenSet.check: expected one per-key containment test (all(… for k, v in constraint.items()) or a for/else "
+                                f"over the items), found {len(alls)} all() and {len(loops)} loops")
+        kn, vn = loops[0].target.elts[0].id, loops[0].target.elts[1].id
+        per_key = ast.UnaryOp(op=ast.Not(), operand=loops[0].body[0].test)
+        ast.copy_location(per_key, loops[0].body[0].test)
+        comp = loops[0].body[0]
+        justified_tests.append(loops[0])
+
+    class _C:            # uniform access below
+        elt = per_key
+        lineno = comp.lineno
+    comp = _C
 
     class Unknown(Exception):
         pass
@@ -930,6 +951,47 @@ def rule_coverage_subsumption(db: ProgramDB) -> List[Instance]:
                         f", it has to be {want[case]}: the stored binding is then taken to cover a lookup it is not contained in, the "
                         f"operator skips the evaluation and replays a cache that holds the rows of another binding (rows are lost on the second "
                         f"evaluation of the same query)"), line=comp.lineno))
+    # every way of answering 'covered' goes through that containment test (or through 'an empty binding was stored')
+    cfg = CFG(m)
+
+    def answers_covered(nd):
+        a = nd.ast
+        return nd.kind == "return" and isinstance(a, ast.Return) and a.value is not None and not (isinstance(a.value, ast.Constant) and not a.value.value)
+    jt = {id(t) for t in justified_tests}
+    verdict = {"v": HOLDS, "why": ""}
+
+    def edge_ok(e):
+        src = cfg.nodes[e.src]
+        if src.kind == "test" and e.label == "T":
+            t = getattr(src.stmt, "test", None)
+            if t is not None:
+                if any(id(x) in jt for x in ast.walk(t)):
+                    return False
+                u = unparse(t)
+                if u in ("self.all_seen",):
+                    return False
+                if isinstance(t, ast.Compare) and len(t.ops) == 1 and isinstance(t.ops[0], ast.In) and f"{ap}.items()" in unparse(t.left) \
+                        and f"{ap}.values()" not in unparse(t.left):
+                    return False          # exact match on (key, value) pairs: contained
+        if src.kind == "for" and id(src.stmt) in {id(t) for t in justified_tests} and e.label == "done":
+            return False
+        return True
+    rets = [nd for nd in cfg.nodes if answers_covered(nd)]
+    if not rets:
+        raise AnalysisError("SeenSet.check: no path that answers 'covered' found")
+    bad = None
+    for r in rets:
+        if isinstance(r.ast.value, ast.Constant) or True:
+            p = cfg.find_path(cfg.entry, lambda nd, r=r: nd.id == r.id, kinds=("n",), edge_ok=edge_ok)
+            if p is not None:
+                bad = (r, p)
+                break
+    out.append(inst("COVERAGE-SUBSUMPTION", VIOLATION if bad else HOLDS, m, "SeenSet.check[covered only by containment]",
+                    "every path that answers 'covered' passes the per-key containment test or 'an empty binding was stored'" if not bad else
+                    f"`{bad[0].src()[:60]}` answers 'covered' on a path that does not go through the per-key containment test "
+                    f"({' '.join(cfg.describe_path(bad[1])[-3:])}): a shortcut that compares less than (key, value) pairs - e.g. the values without "
+                    f"their keys - takes a binding for covered that was never stored, the operator replays another binding's rows or "
+                    f"suppresses a new row as a duplicate", line=bad[0].lineno if bad else m.lineno))
     return out
 
 
@@ -1005,8 +1067,49 @@ def rule_cache_operand_agreement(db: ProgramDB) -> List[Instance]:
                                 f"`{unparse(call)}` stores `{unparse(row_expr)}`, not the row `{', '.join(sorted(tn))}` of self.{side}, in the cache "
                                 f"of the {side} operand: the stored binding does not bind that operand's variables, so it covers every later "
                                 f"lookup and replays rows with those variables unbound", line=call.lineno))
+    # what is checked is what is replayed: `if <cache>.check(<lookup>): replay(...)` replays from the cache whose coverage was tested
+    n_chk = 0
+    for c in sorted([se] + se.all_subclasses(), key=lambda k: k.qualname):
+        for m in c.methods.values():
+            if m.cls is not c or not m.is_generator:
+                continue
+            for st in own_nodes(m.node):
+                if not isinstance(st, ast.If):
+                    continue
+                chk = [x for x in ast.walk(st.test) if isinstance(x, ast.Call) and call_attr(x) == "check" and len(x.args) == 1
+                       and isinstance(x.func.value, ast.Attribute) and x.func.value.attr.endswith("cache_") | x.func.value.attr.endswith("_cache")]
+                if len(chk) != 1:
+                    continue
+                chk = chk[0]
+                ctext, lookup = unparse(chk.func.value), unparse(chk.args[0])
+                for call in [x for b in st.body for x in ast.walk(b) if isinstance(x, ast.Call)]:
+                    an = call_attr(call)
+                    used, arg = None, None
+                    if an in ("yield_final_output_from_cache", "yield_from_cache"):
+                        callee = c.lookup(an)
+                        if callee is None:
+                            continue
+                        amap = bind_args(fn_params(callee), call)
+                        cexpr = amap.get("cache")
+                        used = "self._cache_" if cexpr is None or unparse(cexpr) == "None" else unparse(cexpr)
+                        a0 = amap.get("variables_sources", call.args[0] if call.args else None)
+                        arg = unparse(a0) if a0 is not None else None
+                    elif an == "retrieve" and isinstance(call.func.value, ast.Attribute) and "cache" in call.func.value.attr:
+                        used, arg = unparse(call.func.value), unparse(call.args[0]) if call.args else None
+                    else:
+                        continue
+                    n_chk += 1
+                    ok = used == ctext and arg == lookup
+                    out.append(inst("CACHE-OPERAND-AGREEMENT", HOLDS if ok else VIOLATION, m, f"{m.short}[replay after {ctext}.check]",
+                                    f"covered by {ctext} -> replayed from {ctext} for the same lookup" if ok else
+                                    f"coverage is tested with `{unparse(chk)}` but `{unparse(call)[:80]}` replays from `{used}` for `{arg}`: the rows replayed are "
+                                    f"those of another cache (or for another lookup) than the one that was found to cover the binding - with caching enabled "
+                                    f"the operator answers from the wrong rows, with caching disabled it evaluates, and the results differ",
+                                    line=call.lineno))
     if n == 0:
         raise AnalysisError("no operand cache (left_cache / right_cache) found")
+    if n_chk < 3:
+        raise AnalysisError(f"only {n_chk} guarded replay site(s) found (expected the comparator, the conjunction and the alternatives)")
     return out
 
 
@@ -1042,4 +1145,211 @@ def rule_coverage_only_if_stored(db: ProgramDB) -> List[Instance]:
                     "with an empty key list insert() records the binding as covered although it has no level to store the output under: the "
                     "empty binding covers every lookup, so a comparison between two literals is answered from an empty cache from its second "
                     "row on (and_(p.k >= 1, contains([1, 2], 1)) returns one row, then none)", line=m.lineno))
+    return out
+
+
+# ---------------------------------------------------------------------------------- REPLAY-ONE-ENTRY
+def rule_replay_one_entry(db: ProgramDB) -> List[Instance]:
+    """'Each qualifying object once' under caching.  The result caches are indexes of ROWS.  The same result can be stored twice
+    for one lookup: under the full row the operand yielded when it was evaluated and under the partial row it yielded when it
+    was itself replayed from a cache (insert() files a row that lacks a key under the wildcard of that level, next to the
+    rows that bind it), and the operators hand every retrieved entry on without a duplicate test.  As long as both hold, a
+    lookup that leaves a key open must be answered from the wildcard child OR from the children that bind the key, never
+    from both - otherwise the third evaluation of and_(A, x.colour == 'red') yields every object twice.
+    (This is the engine's side of the recorded finding RETRIEVE-ALL-BRANCHES of C20; the rule is inert once insert() stops
+    filing partial rows under wildcards or every replay de-duplicates.)"""
+    out = []
+    ic = db.cls("IndexedCache")
+    ins, ret = ic.methods.get("insert"), ic.methods.get("retrieve")
+    if ins is None or ret is None:
+        raise AnalysisError("IndexedCache.insert / retrieve not found")
+    p1 = any(isinstance(c, ast.Call) and call_attr(c) == "get" and len(c.args) == 2 and unparse(c.args[1]) in ("All", "ALL") for c in own_nodes(ins.node)) \
+        or any(isinstance(x, ast.IfExp) and unparse(x.orelse) in ("All", "ALL") for x in own_nodes(ins.node))
+    # P2: a replay loop over cache.retrieve() with a yield reachable from the loop head without passing a duplicate test
+    p2 = None
+    for fn in db.all_functions():
+        if fn.cls is None or not fn.is_generator:
+            continue
+        loops = [x for x in own_nodes(fn.node) if isinstance(x, ast.For) and isinstance(x.iter, ast.Call) and call_attr(x.iter) == "retrieve"]
+        if not loops:
+            continue
+        cfg = CFG(fn)
+        for lp in loops:
+            head = next((nd for nd in cfg.nodes if nd.kind == "for" and nd.stmt is lp), None)
+            if head is None:
+                continue
+
+            def dup_test(nd):
+                return nd.kind == "test" and nd.ast is not None and any(isinstance(c, ast.Call) and call_attr(c) == "_is_duplicate_output_" for c in ast.walk(nd.ast)) \
+                    and not isinstance(getattr(nd.stmt, "test", None), ast.BoolOp)
+            body_ids = {id(x) for s in lp.body for x in ast.walk(s)}
+            p = cfg.find_path(head.id, lambda nd: nd.has_yield and nd.ast is not None and id(nd.ast) in body_ids, kinds=("n",), blocked=dup_test)
+            if p is not None:
+                p2 = fn
+    if not p1 or p2 is None:
+        out.append(inst("REPLAY-ONE-ENTRY", INFO, ret, "IndexedCache.retrieve[open key: one family of children]",
+                        "not needed: " + ("insert() does not file partial rows under wildcards" if not p1 else "every replay loop de-duplicates what it retrieves")))
+        return out
+    cfg = CFG(ret)
+    ap = "assignment" if "assignment" in ret.params else ret.positional_params[1]
+
+    def excludes_wild(e) -> bool:
+        src = cfg.nodes[e.src]
+        if src.kind != "test" or not isinstance(getattr(src.stmt, "test", None), ast.Compare):
+            return False
+        t = src.stmt.test
+        if len(t.ops) != 1:
+            return False
+        l, r, op = unparse(t.left), unparse(t.comparators[0]), t.ops[0]
+        wild = ("All", "ALL")
+        if l in wild and isinstance(op, ast.In):
+            return e.label == "F"
+        if l in wild and isinstance(op, ast.NotIn):
+            return e.label == "T"
+        if (r in wild or l in wild) and isinstance(op, (ast.IsNot, ast.NotEq)):
+            return e.label == "T"
+        if (r in wild or l in wild) and isinstance(op, (ast.Is, ast.Eq)):
+            return e.label == "F"
+        return False
+    tests = [nd for nd in cfg.nodes if nd.kind == "test" and isinstance(nd.stmt, ast.If) and isinstance(nd.stmt.test, ast.Compare)
+             and len(nd.stmt.test.ops) == 1 and isinstance(nd.stmt.test.ops[0], (ast.In, ast.NotIn)) and unparse(nd.stmt.test.comparators[0]) == ap]
+    if not tests:
+        raise AnalysisError("IndexedCache.retrieve: no branch on whether the lookup binds the current key found")
+    for t in tests:
+        unbound_label = "T" if isinstance(t.stmt.test.ops[0], ast.NotIn) else "F"
+        bad = None
+        for e in cfg.succ[t.id]:
+            if e.kind != "n" or e.label != unbound_label:
+                continue
+            for lp in [nd for nd in cfg.nodes if nd.kind == "for" and "cache" in unparse(nd.stmt.iter) and unparse(nd.stmt.iter).split(".")[-1] in ("items()", "values()", "keys()")]:
+                ok = lambda ed: ed.kind == "n" and not excludes_wild(ed)
+                pa = [] if e.dst == lp.id else cfg.find_path(e.dst, lambda nd: nd.id == lp.id, kinds=("n",), edge_ok=ok)
+                if pa is None:
+                    continue
+                body_ids = {id(x) for s in lp.stmt.body for x in ast.walk(s)}
+
+                def descends(nd):
+                    return nd.ast is not None and id(nd.ast) in body_ids and any(
+                        isinstance(c, ast.Call) and call_attr(c) in ("_yield_result", "retrieve") for c in ast.walk(nd.ast)) or \
+                        (nd.has_yield and nd.ast is not None and id(nd.ast) in body_ids)
+                pb = cfg.find_path(lp.id, descends, kinds=("n",), edge_ok=ok)
+                if pb is not None:
+                    bad = [e] + pa + pb
+        out.append(inst("REPLAY-ONE-ENTRY", VIOLATION if bad else HOLDS, ret, "IndexedCache.retrieve[open key: one family of children]",
+                        "when the lookup leaves a key open, the loop over all children of the level is entered although a wildcard child may exist and descends "
+                        "into it like into the others (" + " ".join(cfg.describe_path(bad)[:4]) + "): a result stored under a partial row (an operand "
+                        f"replayed from its own cache) and under the full row is replayed twice by {p2.short} - the third evaluation of "
+                        "and_(x.w > 5, x.colour == 'red') yields every object twice" if bad else
+                        "when the lookup leaves a key open, either the wildcard child or the children that bind the key are followed", line=t.lineno))
+    return out
+
+
+# ---------------------------------------------------------------------------------- TRIE-NODE-TYPE
+def rule_trie_node_type(db: ProgramDB) -> List[Instance]:
+    """The index is a trie whose leaves hold arbitrary outputs - including dicts.  The reader tells an inner level from a leaf by
+    its TYPE (`isinstance(child, CacheDict)`), so the writer has to create inner levels of exactly such a type: an inner level
+    created as a plain dict is handed out as if it were the stored output."""
+    out = []
+    ic = db.cls("IndexedCache")
+    ins = ic.methods.get("insert")
+    if ins is None:
+        raise AnalysisError("IndexedCache.insert not found")
+    # reader: the class tested before descending
+    reader_types: Set[str] = set()
+    for m in ic.methods.values():
+        if m.cls is not ic or m.name == "insert":
+            continue
+        for t in own_nodes(m.node):
+            if isinstance(t, ast.If) and isinstance(t.test, ast.Call) and dotted(t.test.func) == "isinstance" and len(t.test.args) == 2 \
+                    and any(isinstance(c, ast.Call) and call_attr(c) in ("retrieve", "_yield_result") for b in t.body for c in ast.walk(b)):
+                a1 = t.test.args[1]
+                reader_types |= {unparse(e) for e in (a1.elts if isinstance(a1, ast.Tuple) else [a1])}
+    if not reader_types:
+        raise AnalysisError("IndexedCache: no type test that tells an inner level from a leaf found in the readers")
+    # writer: what is stored as a child and then descended into
+    defs = local_defs(ins)
+    n = 0
+    for a in own_nodes(ins.node):
+        if not (isinstance(a, ast.Assign) and len(a.targets) == 1 and isinstance(a.targets[0], ast.Subscript) and "cache" in unparse(a.targets[0].value)):
+            continue
+        v = a.value
+        cands = [v] if not isinstance(v, ast.Name) else [d for d in defs.get(v.id, []) if isinstance(d, ast.AST)]
+        created = [d for d in cands if isinstance(d, (ast.Dict, ast.DictComp)) or (isinstance(d, ast.Call) and isinstance(d.func, ast.Name)
+                                                                                   and (d.func.id in ("dict", "defaultdict", "OrderedDict") or db.class_by_name.get(d.func.id)))]
+        for d in created:
+            n += 1
+            tname = "dict" if isinstance(d, (ast.Dict, ast.DictComp)) else d.func.id
+            ok = tname in reader_types or any(db.class_by_name.get(tname) and db.cls(tname).is_subclass_of(rt) for rt in reader_types if db.class_by_name.get(rt))
+            out.append(inst("TRIE-NODE-TYPE", HOLDS if ok else VIOLATION, ins, f"IndexedCache.insert[inner level created as {tname}]",
+                            f"inner levels are {tname}, which the reader recognises ({', '.join(sorted(reader_types))})" if ok else
+                            f"inner levels are created as `{unparse(d)}` but the reader descends only into {', '.join(sorted(reader_types))}: a lookup that "
+                            f"ends above such a level is handed the level itself as the stored output (an index with more than two keys "
+                            f"yields dicts of sub-indexes instead of results)", line=d.lineno))
+    if n == 0:
+        raise AnalysisError("IndexedCache.insert: creation of inner levels not found")
+    return out
+
+
+# ---------------------------------------------------------------------------------- KEYS-DERIVED-FRESH
+_DERIVED_SAMPLE = '''
+class K:
+    def __post_init__(self):
+        self.keys = self._keys
+        self._fast = frozenset(self._keys)
+    @property
+    def keys(self):
+        return self._keys
+    @keys.setter
+    def keys(self, keys):
+        self._keys = list(sorted(keys))
+'''
+
+
+def _stale_derivations(cls_node: ast.ClassDef, field_names=("keys", "_keys")) -> List[Tuple[ast.Assign, str]]:
+    """assignments `self.F = <expression over self.keys / self._keys>` outside the setter of `keys`, for an F the setter does not assign"""
+    setter = None
+    others = []
+    for st in cls_node.body:
+        if isinstance(st, (ast.FunctionDef,)):
+            if any(unparse(d) == "keys.setter" for d in st.decorator_list):
+                setter = st
+            else:
+                others.append(st)
+    if setter is None:
+        raise AnalysisError(f"class {cls_node.name}: the setter of `keys` was not found")
+    assigned_in_setter = {t.attr for a in ast.walk(setter) if isinstance(a, (ast.Assign, ast.AugAssign, ast.AnnAssign))
+                          for t in (a.targets if isinstance(a, ast.Assign) else [a.target]) if isinstance(t, ast.Attribute)
+                          and isinstance(t.value, ast.Name) and t.value.id == "self"}
+    bad = []
+    for f in others:
+        for a in ast.walk(f):
+            if not isinstance(a, ast.Assign):
+                continue
+            for t in a.targets:
+                if isinstance(t, ast.Attribute) and isinstance(t.value, ast.Name) and t.value.id == "self" and t.attr not in field_names:
+                    reads = any(isinstance(x, ast.Attribute) and isinstance(x.value, ast.Name) and x.value.id == "self" and x.attr in field_names
+                                for x in ast.walk(a.value))
+                    if reads and t.attr not in assigned_in_setter:
+                        bad.append((a, t.attr))
+    return bad
+
+
+def rule_keys_derived_fresh(db: ProgramDB) -> List[Instance]:
+    """The key list of an index is assigned after construction (the operators set `cache.keys = …` in their __post_init__,
+    class caches on first use); the setter re-sorts it and empties the index.  Anything computed FROM the key list and kept in
+    another field therefore has to be recomputed by that setter, otherwise it describes the key list the index was
+    constructed with (usually empty) - check() would filter every lookup down to the empty binding."""
+    out = []
+    ic = db.cls("IndexedCache")
+    if not _stale_derivations(ast.parse(_DERIVED_SAMPLE).body[0]):
+        raise AnalysisError("KEYS-DERIVED-FRESH: the built-in positive example is no longer recognised")
+    bad = _stale_derivations(ic.node)
+    for a, f in bad:
+        out.append(inst("KEYS-DERIVED-FRESH", VIOLATION, ic, f"IndexedCache.{f}[derived from the key list]",
+                        f"`{unparse(a)[:70]}` keeps something computed from the key list in `{f}`, and the setter of `keys` does not recompute it: after "
+                        f"`cache.keys = [...]` (every operator does that after constructing its cache) `{f}` still describes the old key list, so "
+                        f"lookups are filtered by the wrong keys - every binding looks covered by the first one stored", line=a.lineno))
+    if not bad:
+        out.append(inst("KEYS-DERIVED-FRESH", HOLDS, ic, "IndexedCache[nothing derived from the key list is kept outside its setter]",
+                        "no field holds a value computed from the key list without the setter recomputing it (built-in positive example recognised)"))
     return out
